@@ -25,6 +25,8 @@ ASSUMPTIONS = [
     'follows it (.byte \'a\', \'b\' and .byte \'a\' + 1 are value lists), otherwise a string; the bytes agree for \'a\' alone',
     'string characters are printable ASCII (plus the listed escapes); \\0 is never followed by an octal digit',
     'fill counts are non-negative; first-pass expressions use earlier names only',
+    'a configured terminator outside 0..255 stands for its low byte (what the tool does); a clean refusal of such a '
+    'configuration would be tolerated, a traceback or another byte is not',
 ]
 BUDGET = {'quick': 4000, 'thorough': 400000}
 LEVEL_TEXT = ('Exploration: masking, byte order, escapes, terminators and the inclusive/exclusive edges of the fill '
@@ -71,7 +73,8 @@ def _cases(draw, tier):
     asz = draw(st.sampled_from([16, 16, 24, 32]))
     general = {'address_size': asz, 'endian': draw(isagen.endians), 'registers': ['a']}
     if draw(st.booleans()):
-        general['cstr_terminator'] = draw(st.one_of(st.integers(0, 255), st.sampled_from([0, 1, 255, 128])))
+        general['cstr_terminator'] = draw(st.one_of(st.integers(0, 255), st.sampled_from([0, 1, 255, 128]),
+                                                    st.sampled_from([256, 0x141, 0x1FF, 1000, -1, -2, -200])))
     emb = draw(st.booleans())
     if emb:
         general['allow_embedded_strings'] = True
@@ -162,7 +165,7 @@ def _cases(draw, tier):
                 continue
             if d != '.byte' and draw(st.integers(0, 4)) == 0:
                 # the text itself ends in the terminator character: the terminator is appended all the same
-                t = general.get('cstr_terminator', 0)
+                t = general.get('cstr_terminator', 0) & 0xFF
                 chars = list(chars) + [t if 32 <= t < 127 and chr(t) not in '"\'\\;' else ['esc', t, '\\x%02x' % t]]
                 feats.add('text-ends-in-the-terminator')
             if any(not isinstance(c, int) for c in chars):
@@ -211,6 +214,12 @@ def execute(case, ctx):
     argv = ['compile', '-c', fname, '-o', 'out.bin', '-s', str(lo), '-e', str(hi), '-f', str(case['fill']), 'main.asm']
     res = runner.run_forked(argv, files)
     feats = set(case['feats'])
+    wide_t = not 0 <= int(cfg['general'].get('cstr_terminator', 0)) <= 255
+    if wide_t and any(it['t'] == 'str' and it['d'] != '.byte' for it in case['items']):
+        feats.add('terminator-beyond-a-byte')
+    if wide_t and res.klass == 'rejected' and 'Traceback' not in res.stderr:
+        # a configuration the tool may refuse as a whole; when it accepts it, the terminator is its low byte
+        return Outcome(classes=['terminator-beyond-a-byte-refused'], evals=1)
     detail = {'source': files['main.asm'], 'general': cfg['general'], 'argv': argv, 'features': sorted(feats),
               'run': res.brief(), 'expected_image': want.hex() if len(want) < 700 else f'<{len(want)} bytes>'}
     findings = []
